@@ -9,9 +9,16 @@ Three oracles, all run against the real coba readers / sources / sinks:
              ArffSource/CsvSource/..., or through HttpSource._byte_it_).  Common dialect: the parsed table must equal the
              written table.  Dialect fuzzer (quote style, escapes, keyword case, comments, blank lines, tabs, blanks
              after commas, line terminators left on the lines, indentation ...): equal to the table *or* an exception.
- * chunk   : HttpSource._byte_it_(encoding, charset, chunk, bytes) for ALL chunk sizes 1..len(bytes) x {identity, gzip,
-             deflate} (stored and compressed blocks) must give text.splitlines().
- * disk    : DiskSink(path).write(lines) -> DiskSource(path).read() must give the lines back (plain and .gz, batches).
+ * chunk   : HttpSource._byte_it_(encoding, charset, chunk, bytes) for ALL chunk sizes 1..len(bytes) (and the 10MB chunk
+             coba's OpenML client uses) x {identity, gzip, deflate} (stored and compressed blocks) must give
+             text.splitlines().  Long bodies (KBs .. 100s of KBs, redundancy from none to ~1000:1 inflation, so that one
+             compressed chunk stands for many times its size of text) are read with chunk sizes on both sides of the
+             stream length (1, 3, 7, .. 64K, len-1, len, len+7, 10MB, two random fractions of len).
+ * disk    : DiskSink(path).write(lines) -> DiskSource(path).read() must give the lines back (plain and .gz, batches,
+             also files of thousands of lines).
+ Long tables: a table spec with "repeat": k is the table with its rows k times over (the long, few-distinct-rows files
+ that compress very well); they are mostly delivered gzip/deflate compressed through _byte_it_ (1 byte .. 10MB chunks)
+ or as .gz files and must parse to the same (long) table.
 
 A failing table/disk case is shrunk (rows, columns, characters, dialect flags) before its signature is built, so that
 signatures name the mechanism (format, the dialect flags that are needed, where the difference is, which kinds of
@@ -28,8 +35,13 @@ RULE  = ("table cases: seeded table (1-5 typed columns, 0-6 rows, names/levels/v
          "non-trivial = distinct (format, dialect flags, delivery, column types, character classes per locus, "
          "missing-present) with >= 1 row.  chunk cases: seeded text (terminators LF/CRLF/CR/mixed, final terminator or "
          "not, 1-4 byte characters) x 5 byte streams (identity, gzip/deflate stored + compressed) x EVERY chunk size "
-         "1..len(stream); distinct = (terminator set, character widths, final?, charset, stream, stream length).  disk "
-         "cases: seeded line lists x {plain,.gz} x batch x number of write calls")
+         "1..len(stream) and 10MB; distinct = (terminator set, character widths, final?, charset, stream, stream length).  "
+         "long-body chunk cases: vocabulary of 1-40 lines (0-80 chars, 1-4 byte characters) laid out cyclic / in runs / "
+         "seeded-random to 3KB-300KB, optional incompressible head/tail, x (identity, gzip, deflate at level 0/1/6/9) x ~15 "
+         "chunk sizes below, at and above the stream length; distinct = (terminators, widths, final?, charset, stream, level, "
+         "inflation class, layout, noise).  long tables (1% of table cases): rows x 40/200/1000, delivered mostly "
+         "compressed in chunks of 1 byte .. 10MB or as .gz.  disk cases: seeded line lists x {plain,.gz} x batch x number "
+         "of write calls, 3% of them x 50/300/1500")
 PLAN  = {"quick":    {"shards": 16, "cases": 160000,  "timeout": 600,  "budget_s": 70},
          "thorough": {"shards": 16, "cases": 6000000, "timeout": 3000, "budget_s": 840}}
 REQUIRED = ["oracle.table.arff_dense.common", "oracle.table.arff_sparse.common", "oracle.table.csv.common",
@@ -37,7 +49,11 @@ REQUIRED = ["oracle.table.arff_dense.common", "oracle.table.arff_sparse.common",
             "oracle.table.missing-flag", "oracle.table.arff_sparse.empty-braces-row", "oracle.table.delivery.disk", "oracle.table.delivery.chunk",
             "oracle.chunk.identity", "oracle.chunk.gzip", "oracle.chunk.deflate",
             "oracle.chunk.boundary-inside-character", "oracle.chunk.boundary-between-cr-and-lf",
-            "oracle.disk.plain", "oracle.disk.gz",
+            "oracle.chunk.long.identity", "oracle.chunk.long.gzip", "oracle.chunk.long.deflate", "oracle.chunk.long.inflation-over-100",
+            "oracle.chunk.long.inflation-10-100", "oracle.chunk.long.inflation-under-10", "oracle.chunk.long.body-in-one-chunk",
+            "oracle.chunk.long.several-chunks", "oracle.table.many-rows", "oracle.table.many-rows.compressed",
+            "oracle.table.many-rows.compressed.body-in-one-chunk", "oracle.table.many-rows.compressed.several-chunks",
+            "oracle.disk.plain", "oracle.disk.gz", "oracle.disk.many-lines.gz", "oracle.disk.many-lines.plain",
             "reach.ArffLineReader._dense_simple", "reach.ArffLineReader._dense_advanced", "reach.ArffLineReader._sparse"]
 ASSUMPTIONS = [
     "common dialect = what Weka's ArffSaver (Utils.quote/backQuoteChars, no blanks after commas, lower-case keywords, "
@@ -54,6 +70,8 @@ ASSUMPTIONS = [
     "chunk oracle: texts never contain the exotic str.splitlines separators (VT, FF, FS-RS, NEL, LS, PS); 'deflate' is "
     "the raw deflate stream coba decodes (zlib-wrapped deflate is only checked as equal-or-raise)",
     "disk oracle: written lines never contain CR or LF",
+    "long tables / long files repeat the generated rows / lines (duplicate rows are ordinary data in every format); "
+    "long-body texts are rebuilt from the seeds in the spec with random.Random (same interpreter => same text)",
 ]
 
 # ================================================================================================= character classes
@@ -216,6 +234,32 @@ def gen_text(rng):
     while len(text.encode(charset)) > 300: text = text[:-1]
     return {"kind": "chunk", "text": text, "charset": charset}
 
+B62 = "abcdefghijklmnopqrstuvwxyzABCDEFGHIJKLMNOPQRSTUVWXYZ0123456789"
+BIG_CHUNK = 10 * 1024 * 1024          # the chunk size coba's OpenML client passes to HttpSource
+
+def gen_longtext(rng):
+    """a long body (KBs .. 100s of KBs) whose redundancy is a parameter: a vocabulary of 1..40 lines laid out cyclically,
+    in runs or in seeded random order (inflation ratios from ~3:1 to ~1000:1), optionally with incompressible lines in
+    front / behind, read with a handful of chunk sizes on both sides of the stream length"""
+    widths = rng.choice([[1], [1], [1, 2], [1, 3], [1, 4], [1, 2, 3, 4]])
+    alpha = {1: "ab,1 '", 2: "\u00e9\u00df\u03a9", 3: "\u20ac\u4e2d\u2713", 4: "\U0001F600\U00010348"}
+    termmode = rng.choice(["lf", "lf", "crlf", "cr", "mixed"])
+    term = lambda: {"lf": "\n", "crlf": "\r\n", "cr": "\r"}.get(termmode) or rng.choice(["\n", "\r\n", "\r", "\r\n", "\n\r"])
+    nv, linelen = rng.choice([1, 1, 2, 3, 3, 8, 40]), rng.choice([0, 1, 4, 12, 30, 80])
+    vocab = []
+    for _ in range(nv):
+        n = rng.randint(0, linelen) if rng.random() < .5 else linelen
+        vocab.append("".join(rng.choice(alpha[rng.choice(widths)]) for _ in range(n)) + term())
+    charset = "utf-8" if rng.random() < .85 else "utf-16"
+    avg = max(1, sum(len(v.encode(charset)) for v in vocab) // nv)
+    nlines = max(50, min(40000, rng.choice([3000, 20000, 90000, 300000]) // avg))
+    lv = lambda: rng.choice([1, 6, 6, 9, 9, 0])
+    sizes = [1, 3, 7, 16, 64, 257, 1000, 4096, 65536, "len-1", "len", "len+7", BIG_CHUNK, ["frac", round(rng.random(), 3)], ["frac", round(rng.random() ** 3, 4)]]
+    return {"kind": "chunk", "vocab": vocab, "nlines": nlines, "final": rng.random() < .6, "charset": charset,
+            "order": {"mode": rng.choice(["cycle", "runs", "random"]), "run": rng.choice([1, 5, 50, 400]), "seed": rng.randrange(1 << 30)},
+            "noise": {"where": rng.choice(["none", "none", "head", "tail", "both"]), "n": rng.choice([5, 50, 400]), "seed": rng.randrange(1 << 30)},
+            "streams": [["identity", 6], ["gzip", lv()], ["deflate", lv()]], "sizes": sizes}
+
 def gen_disk(rng):
     n = rng.choice([0, 1, 2, 3, 5, 8])
     level = rng.choice([0, 1, 2])
@@ -228,8 +272,12 @@ def gen_disk(rng):
             t = gen_token(rng, 2, ARFF_CLASSES + ["tab"], [" a", "a ", " ", "\t", "a\t", "  ", "\u2028", "a\u2028b", "a\x0c", "\x85b", "a\x1c", "\ufeffa", "a\x0b"])
             lines.append(t)
     nwrites = rng.choice([1, 1, 2, 3])
-    return {"kind": "disk", "lines": lines, "gz": rng.random() < .5, "batch": rng.choice([None, None, 1, 2, 3]),
+    spec = {"kind": "disk", "lines": lines, "gz": rng.random() < .5, "batch": rng.choice([None, None, 1, 2, 3]),
             "cuts": sorted(rng.randint(0, n) for _ in range(nwrites - 1))}
+    if n and rng.random() < .03:         # the same lines many times over: a long (and, as .gz, very compressible) file
+        spec["repeat"] = rng.choice([50, 300, 1500])
+        spec["batch"] = rng.choice([None, None, 1, 3, 100, 1000] if spec["repeat"] <= 300 else [None, None, 100, 1000])
+    return spec
 
 def gen_case(rng):
     r = rng.random()
@@ -240,8 +288,18 @@ def gen_case(rng):
         if fmt == "csv" and "term_crlf" in spec["variant"] and any("\n" in v for r in spec["rows"] for v in r):
             spec["variant"].remove("term_crlf")      # would make the written line break inside a field ambiguous
         spec["delivery"] = gen_delivery(rng)
+        if spec["rows"] and rng.random() < .01:
+            # a long table: the generated rows many times over (files with few distinct rows -- indicator / one-hot tables --
+            # are long AND inflate to many times their compressed size), mostly delivered compressed and in chunks
+            spec["repeat"] = rng.choice([40, 200, 1000])
+            q = rng.random()
+            if q < .70:
+                spec["delivery"] = {"how": "chunk", "enc": rng.choice([None, "gzip", "gzip", "deflate", "deflate"]),
+                                    "chunk": rng.choice([1, 7, 64, 1000, 4096, 65536, BIG_CHUNK, BIG_CHUNK])}
+            elif q < .85: spec["delivery"] = {"how": "diskgz"}
         return spec
     if r < .93: return gen_text(rng)
+    if r < .933: return gen_longtext(rng)
     return gen_disk(rng)
 
 # ================================================================================================= our own writers
@@ -509,8 +567,17 @@ def compare(spec, got):
                     f"row {i}: .missing={g['missing']} but written row {'has' if exp['missing'][i] else 'has no'} '?' value: {spec['rows'][i]!r}", toks)
     return None
 
+def _expanded(spec):
+    """a table spec with "repeat": k stands for the table whose rows are the listed rows k times over"""
+    k = spec.get("repeat", 1)
+    if k <= 1: return spec
+    s = {key: v for key, v in spec.items() if key != "repeat"}
+    s["rows"] = [r for _ in range(k) for r in spec["rows"]]
+    return s
+
 def check_table(spec):
     """one (table, dialect, delivery) evaluation -> None | (locus, mode, detail)"""
+    spec = _expanded(spec)
     common = not spec["variant"]
     try:
         got = deliver_and_parse(spec)
@@ -544,6 +611,22 @@ def shrink_table(spec, key, budget=600):
         except Exception: return False
         return r not in (None, "raised") and (r[0], r[1]) == key
     cur = copy.deepcopy(spec)
+    if cur.get("repeat", 1) > 1:
+        # a long table: is the length needed at all?  if so halve it while the failure stays and shrink the rest with a
+        # small budget only (every evaluation parses the whole long table)
+        s = copy.deepcopy(cur); s.pop("repeat")
+        if fails(s): cur = s
+        else:
+            for f in list(cur["variant"]):          # (at full length: a shorter table may need the extra bytes of a respelling)
+                s = copy.deepcopy(cur); s["variant"].remove(f)
+                if fails(s): cur = s
+            s = _asciified(cur)
+            if s is not None and fails(s): cur = s
+            while cur["repeat"] > 2 and budget > 0:
+                s = copy.deepcopy(cur); s["repeat"] //= 2
+                if not fails(s): break
+                cur = s
+            budget = min(budget, 25)
     changed = True
     while changed and budget > 0:
         changed = False
@@ -655,6 +738,22 @@ def shrink_table(spec, key, budget=600):
         if not fails(back) and not fails(front): cur["needs_single_column"] = True
     return cur
 
+def _asciified(spec):
+    """the same table with every non-ASCII character replaced (None when there is none or names / levels would collide)"""
+    f = lambda t: "".join(c if ord(c) < 128 else "u" for c in t) if isinstance(t, str) else t
+    s = copy.deepcopy(spec)
+    if s["fmt"] in ("libsvm", "manik"):
+        for r in s["rows"]: r["labels"] = [f(l) for l in r["labels"]]
+    else:
+        if s.get("relation"): s["relation"] = f(s["relation"])
+        for c in s["cols"]:
+            c["name"] = f(c["name"])
+            if c.get("levels"): c["levels"] = [f(l) for l in c["levels"]]
+            if len(set(c.get("levels") or [])) != len(c.get("levels") or []): return None
+        if len({c["name"] for c in s["cols"]}) != len(s["cols"]): return None
+        s["rows"] = [[f(v) for v in r] for r in s["rows"]]
+    return None if s == spec else s
+
 def _in_domain(s):
     """the shrinker must not leave the generated domain"""
     if s["fmt"] == "csv" and not s["header"] and not s["rows"]: return False
@@ -687,6 +786,7 @@ def table_signature(spec, locus, mode):
     if how:     # the failure needs this delivery: the byte positions matter, not the kinds of characters in the tokens
         uni = sorted({f for v in feats.values() for f in v if f in ("u2", "u3", "u4")})
         parts, extra = (["unicode"] if uni else []), []
+    if spec.get("repeat", 1) > 1: extra.append("many-rows")
     return f"table/{fmt}/{dial}{how}/{locus}/{'/'.join(parts + extra) or 'plain'}/{mode}"
 
 # ================================================================================================= chunk oracle
@@ -735,7 +835,7 @@ def check_chunk(spec, ctx=None):
             if whole != text: viol.append((f"chunk/enc={name}/whole-body/wrong-text", f"chunk=None returned {whole!r} for {text!r}", None))
         except Exception as e:
             viol.append((f"chunk/enc={name}/whole-body/raise:{type(e).__name__}", f"chunk=None raised {e!r} for {text!r}", None))
-        sizes = list(range(1, len(data) + 1)) + [len(data) + 7]
+        sizes = list(range(1, len(data) + 1)) + [len(data) + 7, BIG_CHUNK]
         if only: sizes = [only[2]]
         for chunk in sizes:
             mode = None
@@ -771,14 +871,141 @@ def check_chunk(spec, ctx=None):
                 if ctx: ctx.count("oracle.chunk.zlib-wrapped.raised")
     return viol
 
+# ------------------------------------------------------------------------------------------------- long bodies
+def long_text(spec):
+    """the text a long-body spec stands for (deterministic: the orders / noise lines come from the seeds in the spec)"""
+    import random
+    v, o, n = spec["vocab"], spec["order"], spec["nlines"]
+    if o["mode"] == "cycle": idx = [i % len(v) for i in range(n)]
+    elif o["mode"] == "runs": idx = [(i // o["run"]) % len(v) for i in range(n)]
+    else:
+        r = random.Random(o["seed"])
+        picks = [r.randrange(len(v)) for _ in range(n // o["run"] + 1)]
+        idx = [picks[i // o["run"]] for i in range(n)]
+    def noise(seed):
+        r = random.Random(seed)
+        return "".join("".join(r.choice(B62) for _ in range(r.randint(5, 40))) + "\n" for _ in range(spec["noise"]["n"]))
+    w = spec["noise"]["where"]
+    text = (noise(spec["noise"]["seed"]) if w in ("head", "both") else "") + "".join(v[i] for i in idx) + \
+           (noise(spec["noise"]["seed"] + 1) if w in ("tail", "both") else "")
+    return text if spec["final"] else text.rstrip("\r\n")
+
+def _resolve_size(entry, n):
+    if entry == "len": return n
+    if entry == "len-1": return max(1, n - 1)
+    if entry == "len+7": return n + 7
+    if isinstance(entry, list): return max(1, int(entry[1] * n))
+    return entry
+
+def _chunk_read(enc, charset, chunk, data, want):
+    """(None, None) or (failure mode, detail) of one chunked read"""
+    from coba.pipes.sources import HttpSource
+    try:
+        got = list(HttpSource._byte_it_(enc, charset, chunk, io.BytesIO(data)))
+    except Exception as e:
+        return f"raise:{type(e).__name__}", f"{type(e).__name__}: {e}"
+    if got == want: return None, None
+    if len(got) > len(want) and [g for g in got if g != ""] == [w for w in want if w != ""]: mode = "spurious-empty-line"
+    elif len(got) <= len(want) and got[:-1] == want[:max(0, len(got) - 1)] and (not got or want[len(got) - 1].startswith(got[-1])):
+        mode = "truncated-text"            # a proper prefix of the text: the end of the body was dropped
+    elif len(got) < len(want): mode = "lost-or-merged-line"
+    else: mode = "wrong-lines"
+    i = next((i for i, (g, w) in enumerate(zip(got, want)) if g != w), min(len(got), len(want)))
+    return mode, f"read {len(got)} lines, text.splitlines() has {len(want)}; first difference at line {i}: read {got[i:i+2]!r}, text has {want[i:i+2]!r}"
+
+def _long_fails(spec, name, level, entry, mode):
+    text = long_text(spec)
+    raw = text.encode(spec["charset"])
+    enc = None if name == "identity" else name
+    data = compress(enc, raw, level)
+    return _chunk_read(enc, spec["charset"], _resolve_size(entry, len(data)), data, text.splitlines())[0] == mode
+
+def _long_shrink(spec, name, level, entry, mode):
+    """is the length / the incompressible part needed?  halve the body while the same failure stays"""
+    cur = {k: copy.deepcopy(v) for k, v in spec.items() if k != "only"}
+    if cur["charset"] != "utf-8":
+        s = copy.deepcopy(cur); s["charset"] = "utf-8"
+        if _long_fails(s, name, level, entry, mode): cur = s
+    if cur["noise"]["where"] != "none":
+        s = copy.deepcopy(cur); s["noise"]["where"] = "none"
+        if _long_fails(s, name, level, entry, mode): cur = s
+    while cur["nlines"] > 1:
+        s = copy.deepcopy(cur); s["nlines"] //= 2
+        if not _long_fails(s, name, level, entry, mode): break
+        cur = s
+    return cur
+
+def check_longchunk(spec, ctx=None):
+    from coba.pipes.sources import HttpSource
+    charset = spec["charset"]
+    text = long_text(spec)
+    raw, want = text.encode(charset), text.splitlines()
+    t0 = "".join(spec["vocab"]).replace("\r\n", "\x00")
+    tset = tuple(k for k, on in (("crlf", "\x00" in t0), ("lf", "\n" in t0), ("cr", "\r" in t0)) if on)
+    widths = tuple(sorted({len(c.encode("utf-8")) for c in "".join(spec["vocab"])}))
+    only = spec.get("only")
+    viol, seen = [], set()
+    for name, level in spec["streams"]:
+        if only and [only[0], only[1]] != [name, level]: continue
+        enc = None if name == "identity" else name
+        data = compress(enc, raw, level)
+        ratio = len(raw) / max(1, len(data))
+        rc = "over-100" if ratio >= 100 else "10-100" if ratio >= 10 else "under-10"
+        if ctx:
+            ctx.case(("chunk-long", tset, widths, spec["final"], charset, name, level, rc, spec["order"]["mode"], spec["noise"]["where"]),
+                     nontrivial=len(want) > 0)
+        try:
+            whole = HttpSource._byte_it_(enc, charset, None, io.BytesIO(data))
+            if whole != text: viol.append((f"chunk/enc={name}/whole-body/wrong-text", f"chunk=None returned {len(whole)} characters for a text of {len(text)}", None))
+        except Exception as e:
+            viol.append((f"chunk/enc={name}/whole-body/raise:{type(e).__name__}", f"chunk=None raised {e!r}", None))
+        done = set()
+        for entry in ([only[2]] if only else spec["sizes"]):
+            chunk = _resolve_size(entry, len(data))
+            if chunk in done or (not only and chunk < 16 and len(data) > 8000): continue      # (time: one read() per byte)
+            done.add(chunk)
+            mode, detail = _chunk_read(enc, charset, chunk, data, want)
+            if ctx:
+                ctx.count("oracle.chunk.long." + name)
+                if enc:
+                    ctx.count("oracle.chunk.long.inflation-" + rc)
+                    ctx.count("oracle.chunk.long." + ("body-in-one-chunk" if chunk >= len(data) else "several-chunks"))
+            if not mode: continue
+            pre = (name, mode, chunk >= len(data))
+            if pre in seen: continue                  # one witness per (stream, failure mode, one/several chunks) and case
+            seen.add(pre)
+            small = _long_shrink(spec, name, level, entry, mode)
+            scs = small["charset"]
+            stext = long_text(small)
+            sraw = stext.encode(scs)
+            sdata = compress(enc, sraw, level)
+            schunk = _resolve_size(entry, len(sdata))
+            # which feature of the body is needed: compressed (inflating) blocks, its length, or only where the boundaries fall
+            if enc and level > 0 and not _long_fails(small, name, 0, entry, mode): body = "compressed-blocks"
+            elif len(sraw) > 300: body = "long-body"
+            else: body = None
+            cs = "" if scs == "utf-8" else f"/charset={scs}"
+            if body is None:              # name it as the short-text oracle does
+                kinds = _boundary_kinds(sraw, _pieces(enc, sdata, schunk), scs)
+                sig = f"chunk/enc={name}/charset={scs}/boundary={'+'.join(sorted(kinds)) or 'ordinary'}/{mode}"
+            else:
+                sig = f"chunk/enc={name}{cs}/{body}/{'body-in-one-chunk' if schunk >= len(sdata) else 'several-chunks'}/{mode}"
+            if sig not in seen:
+                seen.add(sig)
+                small["only"] = [name, level, entry]
+                viol.append((sig, f"chunk={schunk} stream={name}(level {level}, {len(sdata)} bytes for {len(sraw)} bytes of text) "
+                                  + (_chunk_read(enc, scs, schunk, sdata, stext.splitlines())[1] or detail), small))
+    return viol
+
 # ================================================================================================= disk oracle
 def run_disk(spec):
     from coba.pipes.sinks import DiskSink
     from coba.pipes.sources import DiskSource
     path = _tmp("sink.log" + (".gz" if spec["gz"] else ""))
     if os.path.exists(path): os.remove(path)
-    lines = spec["lines"]
-    cuts = [0] + list(spec["cuts"]) + [len(lines)]
+    k = spec.get("repeat", 1)
+    lines = spec["lines"] * k
+    cuts = [0] + [c * k for c in spec["cuts"]] + [len(lines)]
     sink = DiskSink(path, batch=spec["batch"])
     for a, b in zip(cuts, cuts[1:]):
         part = lines[a:b]
@@ -795,7 +1022,15 @@ def check_disk(spec):
         got, located, path = run_disk(spec)
     except Exception as e:
         return (f"raise:{type(e).__name__}", f"{type(e).__name__}: {e}")
-    want = list(spec["lines"])
+    want = list(spec["lines"]) * spec.get("repeat", 1)
+    if len(want) > 50:        # a long file: do not put thousands of lines into the message
+        if got != want:
+            i = next((i for i, (g, w) in enumerate(zip(got, want)) if g != w), min(len(got), len(want)))
+            mode = "lost-line" if len(got) < len(want) else "extra-line" if len(got) > len(want) else "wrong-line"
+            return (mode, f"read back {len(got)} lines, written {len(want)}; first difference at line {i}: read {got[i:i+2]!r}, written {want[i:i+2]!r}")
+        if [l for _, l in located] != want:
+            return ("include_loc-wrong-line", f"include_loc read {len(located)} lines that differ from the {len(want)} written")
+        return None
     if got != want:
         mode = "lost-line" if len(got) < len(want) else "extra-line" if len(got) > len(want) else "wrong-line"
         return (mode, f"read back {got!r}, written {want!r}")
@@ -810,6 +1045,15 @@ def shrink_disk(spec, mode, budget=300):
         budget -= 1
         r = check_disk(s)
         return r is not None and r[0] == mode
+    if cur.get("repeat", 1) > 1:
+        s = copy.deepcopy(cur); s.pop("repeat")
+        if fails(s): cur = s
+        else:
+            while cur["repeat"] > 2:
+                s = copy.deepcopy(cur); s["repeat"] //= 2
+                if not fails(s): break
+                cur = s
+            budget = min(budget, 40)
     changed = True
     while changed and budget > 0:
         changed = False
@@ -837,7 +1081,7 @@ def disk_signature(spec, mode):
         for c in l:
             if c in "\u2028\u2029\x0b\x0c\x1c\x1d\x1e\x85": f.add("unicode-line-separator-char")
             if c == "\ufeff": f.add("bom-char")
-    extra = ([f"batch={spec['batch']}"] if spec["batch"] else []) + (["several-writes"] if spec["cuts"] else [])
+    extra = ([f"batch={spec['batch']}"] if spec["batch"] else []) + (["several-writes"] if spec["cuts"] else []) + (["many-lines"] if spec.get("repeat", 1) > 1 else [])
     return f"disk/{'gz' if spec['gz'] else 'plain'}/{'+'.join(sorted(f)) or 'plain'}{''.join('/' + e for e in extra)}/{mode}"
 
 # ================================================================================================= reach counters
@@ -855,6 +1099,10 @@ def _install_reach():
     C._vf_reach = True
 
 # ================================================================================================= the checker
+def _long_key(spec):
+    if spec.get("repeat", 1) <= 1: return None
+    return ("many-rows", spec["delivery"].get("chunk"))
+
 def _case_key(spec):
     fmt = spec["fmt"]
     dv = spec["delivery"]
@@ -862,7 +1110,7 @@ def _case_key(spec):
         lab = set()
         for r in spec["rows"]:
             for l in r["labels"]: lab |= features(l)
-        return ("table", fmt, tuple(spec["variant"]), dv["how"], dv.get("enc"), tuple(sorted(lab)),
+        return ("table", fmt, tuple(spec["variant"]), dv["how"], dv.get("enc"), _long_key(spec), tuple(sorted(lab)),
                 any(len(r["labels"]) > 1 for r in spec["rows"]), any(not r["feats"] for r in spec["rows"]))
     fn, fl, fv = set(), set(), set()
     for j, c in enumerate(spec["cols"]):
@@ -870,7 +1118,7 @@ def _case_key(spec):
         for l in c.get("levels") or []: fl |= features(l)
         for r in spec["rows"]:
             if c["type"] in ("string", "date") and r[j] is not None: fv |= features(r[j])
-    return ("table", fmt, tuple(spec["variant"]), dv["how"], dv.get("enc"), tuple(sorted(c["type"] for c in spec["cols"])),
+    return ("table", fmt, tuple(spec["variant"]), dv["how"], dv.get("enc"), _long_key(spec), tuple(sorted(c["type"] for c in spec["cols"])),
             tuple(sorted(fn)), tuple(sorted(fl)), tuple(sorted(fv)), any(v is None for r in spec["rows"] for v in r), spec.get("header"))
 
 def check_case(spec, ctx=None, minimise=True):
@@ -879,6 +1127,8 @@ def check_case(spec, ctx=None, minimise=True):
     kind = spec["kind"]
     if kind == "chunk":
         out = []
+        if "vocab" in spec:
+            return [(sig, what, w or spec) for sig, what, w in check_longchunk(spec, ctx)]
         for sig, what, only in check_chunk(spec, ctx):
             w = dict(spec)
             if only: w["only"] = only
@@ -886,9 +1136,10 @@ def check_case(spec, ctx=None, minimise=True):
         return out
     if kind == "disk":
         if ctx:
-            ctx.case(("disk", spec["gz"], spec["batch"], len(spec["cuts"]), tuple(sorted(set().union(*[features(l) for l in spec["lines"]] or [set()])))),
+            ctx.case(("disk", spec["gz"], spec["batch"], len(spec["cuts"]), spec.get("repeat", 1) > 1, tuple(sorted(set().union(*[features(l) for l in spec["lines"]] or [set()])))),
                      nontrivial=len(spec["lines"]) > 0)
             ctx.count("oracle.disk.gz" if spec["gz"] else "oracle.disk.plain")
+            if spec.get("repeat", 1) > 1: ctx.count("oracle.disk.many-lines." + ("gz" if spec["gz"] else "plain"))
         r = check_disk(spec)
         if r is None: return []
         small = shrink_disk(spec, r[0]) if minimise is True else spec
@@ -906,7 +1157,12 @@ def check_case(spec, ctx=None, minimise=True):
         else: ctx.count("oracle.table.variant.equal" if r is None else "oracle.table.variant.differs")
         how = spec["delivery"]["how"]
         if how != "lines": ctx.count("oracle.table.delivery." + ("disk" if how.startswith("disk") else "chunk"))
-        if fmt.startswith("arff") and r != "raised": ctx.count("oracle.table.missing-flag", len(spec["rows"]))
+        if spec.get("repeat", 1) > 1 and r != "raised":
+            ctx.count("oracle.table.many-rows")
+            if how == "diskgz" or spec["delivery"].get("enc"):
+                ctx.count("oracle.table.many-rows.compressed")
+                if how == "chunk": ctx.count("oracle.table.many-rows.compressed." + ("body-in-one-chunk" if spec["delivery"]["chunk"] >= BIG_CHUNK else "several-chunks"))
+        if fmt.startswith("arff") and r != "raised": ctx.count("oracle.table.missing-flag", len(spec["rows"]) * spec.get("repeat", 1))
         if fmt == "arff_sparse" and r is None:
             ctx.count("oracle.table.arff_sparse.empty-braces-row", sum(1 for row in spec["rows"] if all(
                 v is not None and v == 0 and c["type"] in ("numeric", "nominal") for c, v in zip(spec["cols"], row))))
@@ -914,7 +1170,8 @@ def check_case(spec, ctx=None, minimise=True):
     if minimise == "as-is":
         return [(table_signature(spec, r[0], r[1]), r[2], spec)]
     if not minimise:
-        return [(f"table/{fmt}/{'common' if common else 'variant'}/{r[0]}/not-minimised/{r[1]}", r[2], spec)]
+        many = f"delivery={spec['delivery']['how']}/many-rows/" if spec.get("repeat", 1) > 1 else ""
+        return [(f"table/{fmt}/{'common' if common else 'variant'}/{many}{r[0]}/not-minimised/{r[1]}", r[2], spec)]
     small = shrink_table(spec, (r[0], r[1]))
     r2 = check_table(small)
     if r2 in (None, "raised"): small, r2 = spec, r
@@ -924,15 +1181,17 @@ def check_case(spec, ctx=None, minimise=True):
 def run_shard(ctx):
     _install_reach()
     i = 0
-    shrunk = Counter()
+    shrunk, long_shrunk = Counter(), 0
     while i < ctx.n and ctx.time_left() > 0:
         spec = gen_case(ctx.rng)
         if i < 3: ctx.sample({k: spec[k] for k in spec if k != "rows"} | ({"rows": spec["rows"][:2]} if "rows" in spec else {}))
         # shrinking is bounded per shard so that a badly broken tree still finishes: un-minimised failures are reported
         # under a coarse signature that is still mechanism-level (format, dialect class, locus, mode)
-        v = check_case(spec, ctx, minimise=(sum(shrunk.values()) < 250))
+        long = spec.get("repeat", 1) > 1
+        v = check_case(spec, ctx, minimise=(sum(shrunk.values()) < 250 and not (long and long_shrunk >= 10)))
         for sig, what, wit in v:
             shrunk[sig] += 1
+            if long: long_shrunk += 1
             ctx.violation(sig, what, wit)
         ctx.count("cases." + spec["kind"])
         i += 1
